@@ -67,7 +67,7 @@ NOT_APPLICABLE = {
 
 # properties whose check is planned in DESIGN.md but not built yet in this revision
 PENDING = {k: "check not built yet in this revision of /verif (planned, DESIGN.md §4); not claimed until it exists"
-           for k in ["C04", "C05", "C07", "C08", "C12", "C14", "C16",
+           for k in ["C07", "C08", "C12", "C14", "C16",
                      "C18"]}
 
 
@@ -364,4 +364,43 @@ _add(Prop(
           "(bit-level reference), picks the attack gain exactly when the detected value exceeds the previous envelope, "
           "never leaves [previous, detected], equals the detected value for gain 0, and stores its output as the new "
           "state; gains are e^(-1/frames) (0 for zero frames), land in their own slots and setters leave the envelope alone.",
+))
+
+
+_add(Prop(
+    "C04", "c04_adaptors", "c04",
+    functions=["Signal::next / is_exhausted of Map, ZipMap, AddAmp, MulAmp, ScaleAmp, OffsetAmp, ScaleAmpPerChannel, "
+               "OffsetAmpPerChannel, ClipAmp, Inspect, Delay", "impl Signal for &mut S, Signal::by_ref"],
+    bounds="frame types i16 (mono), [u8;2], [f32;2]; sources of symbolic length <= 4 with symbolic contents; 3-5 next() "
+           "calls per harness; delay length symbolic <= 3; stacks: the listed ones (depth <= 4, one tree of three sources); "
+           "gains on the grid k/64 or picked from constants; sample values restricted so that offsets stay in range",
+    outside="deeper / other stacks (a *programs* quantifier cannot be symbolic over Rust types; follows from C03 plus "
+            "structural induction, not claimed); other frame formats; more than 5 frames per run (the adaptors hold no "
+            "per-frame state except Delay's counter)",
+    assumptions=["sample values and offsets are assumed small enough that add/offset cannot overflow (the property "
+                 "quantifies over in-range results)"],
+    design_ref="DESIGN.md §4 C04",
+    claim="For each adaptor and the listed stacks the solver shows, for arbitrary source contents, lengths and parameters, "
+          "that output n is the Frame operation (C03) of source frame(s) n, that every source is pulled exactly once per "
+          "output (none during a delay's silence), and that a borrowed source resumes at exactly the next frame.",
+))
+
+
+_add(Prop(
+    "C05", "c05_exhaustion", "c05",
+    functions=["dasp_signal::{from_iter, from_interleaved_samples_iter}, FromIterator / FromInterleavedSamplesIterator::{next, "
+               "is_exhausted}", "is_exhausted of Map, ZipMap, AddAmp, MulAmp, ScaleAmp, OffsetAmp, *PerChannel, ClipAmp, Inspect, "
+               "Delay, Hz, rms::Rms, envelope::DetectEnvelope, &mut S", "UntilExhausted::next, lift, Take::{next, len, size_hint}, "
+               "IntoInterleavedSamples::{next_sample, into_iter}, IntoInterleavedSamplesIterator::next"],
+    bounds="sources: 6 samples / frames with symbolic length 0..=6, channel counts 1, 2, 3 (and a bare-sample frame), 3 further "
+           "next() calls after exhaustion; adaptors: two sources of symbolic length 0..=3; delay <= 3; take <= 5",
+    outside="longer streams (no length-dependent state exists beyond the one-frame look-ahead; stated, not decided); frame "
+            "formats other than i16/u8/f32/f64",
+    design_ref="DESIGN.md §4 C05",
+    claim="For every source length and content within the bound the solver shows that iterator-backed signals yield exactly "
+          "the complete frames in order (trailing partial frame dropped), report exhaustion exactly when none remain, yield "
+          "equilibrium afterwards and never poll the iterator after its None; that exhaustion is the OR over inputs for "
+          "combining adaptors, unchanged through length-preserving ones, delayed by d for delay(d); that until_exhausted / "
+          "lift yield exactly min-length frames and then None for good; take(n) yields exactly n; interleaved output yields "
+          "frames x channels samples in channel order.",
 ))
